@@ -151,7 +151,9 @@ def body(rng, tp, pays, steps):
         elif r < 0.90:
             ops.append({"op": "save", "node": 0})
         elif r < 0.95:
-            ops.append({"op": "restart", "node": 0, "use": rng.choice(["now", "last", "last"])})
+            # "stale": from a snapshot the monitors have overtaken (LDK closes those channels; the run ends
+            # with what list_recent_payments says right after the restart)
+            ops.append({"op": "restart", "node": 0, "use": rng.choice(["now", "last", "last", "last", "stale"])})
         elif r < 0.975:
             ops.append({"op": "abandon", "node": 0, "id": p["pid"]})
         else:
@@ -487,6 +489,8 @@ def trace_stats(path):
                     inc("msg_" + r["kind"])
             elif e in ("claim", "failback", "restart", "save", "tick", "block", "abandon", "panic", "quiet"):
                 inc(e)
+                if e == "restart" and r.get("stale"):
+                    inc("restart_stale")
     return c
 
 
@@ -533,7 +537,28 @@ def selftest(pid, wd, tpath, muts):
     return {"mutations": done, "rejected": rejected, "kinds": names}
 
 
-def run_check(pid, tier, seed, mc_cfgs, compile_fn, random_fn, n_tlc, n_rand, need, selftests, assumptions, pick=None):
+def run_probes(pid, binpath, seed, probes):
+    """Directed scripts for recorded findings: run only for findings registered in KNOWN_FINDINGS.jsonl
+    (they print KNOWN-FINDING and do not count); an unregistered finding's probe is skipped."""
+    known = {k.get("key") for k in vlib.load_known() if k.get("property") == pid}
+    out = []
+    for key, script in probes:
+        if key not in known:
+            vlib.log("[probe] finding %s is not registered in KNOWN_FINDINGS.jsonl: probe skipped" % key)
+            out.append({"key": key, "ran": False})
+            continue
+        tpath, summ, index = run_engine(pid, binpath, [script], seed, "probe", procs=1)
+        _, fails = vlib.validate_trace(pid, SPECS[pid]["trace"], SPECS[pid]["trace"] + ".cfg", tpath, max_failures=1, tag="probe")
+        if fails:
+            vlib.report_violation(pid, "probe-" + key, {"property": pid, "script": script, "first_unmatched_event": fails[0]["rec"],
+                                                        "trace_of_run": fails[0]["run_events"]}, key=key)
+        else:
+            vlib.log("[probe] known finding %s no longer reproduces" % key)
+        out.append({"key": key, "ran": True, "reproduced": bool(fails)})
+    return out
+
+
+def run_check(pid, tier, seed, mc_cfgs, compile_fn, random_fn, n_tlc, n_rand, need, selftests, assumptions, pick=None, probes=()):
     t0 = time.time()
     wd = vlib.workdir(pid)
     bins = vlib.build(["paynet"])
@@ -618,6 +643,8 @@ def run_check(pid, tier, seed, mc_cfgs, compile_fn, random_fn, n_tlc, n_rand, ne
         if nviol == 0 and stats.get(k, 0) < n:
             raise vlib.ToolError("vacuity: the runs contain %d x %s (need >= %d): %s" % (stats.get(k, 0), k, n, stats))
 
+    probe_res = run_probes(pid, bins["paynet"], seed, probes) if probes else []
+
     st = None
     if nviol == 0 and accepted:
         st = selftest(pid, wd, accepted[-1], selftests)
@@ -634,6 +661,7 @@ def run_check(pid, tier, seed, mc_cfgs, compile_fn, random_fn, n_tlc, n_rand, ne
                      "action_coverage": {a: r["coverage"].get(a, 0) for a in spec["actions"]}, "wall_s": round(r["wall_s"], 1)} for c, r in mcs],
         "scripts_from_tlc": len(conv), "random_scripts": len(rand), "events_validated": total_events,
         "engine": summs, "observed": stats, "code_constants": consts, "binding_selftest": st, "exhaustive": False,
+        "finding_probes": probe_res,
     }
     vlib.write_evidence(pid, tier, seed, "model_checking", covd, assumptions, time.time() - t0, nviol)
     return nviol
